@@ -511,6 +511,13 @@ impl<'a> Gen<'a> {
         if self.r.chance(0.03) {
             return 0.0;
         }
+        // exact small integers (log 1 = 0, powers of one, sign changes), and magnitudes far from one
+        match self.r.below(40) {
+            0 | 1 => return [1.0, -1.0, 2.0, -2.0, 3.0, 0.5, -0.5][self.r.usize(7)],
+            2 => return self.r.sign() * self.r.log_uniform(1e2, 1e8),
+            3 => return self.r.sign() * self.r.log_uniform(1e-10, 1e-2),
+            _ => {}
+        }
         match self.r.below(6) {
             0 => self.r.uniform(0.01, 0.99), // usable by inv_norm_cdf
             1 => -self.r.log_uniform(1e-2, 1e2),
